@@ -119,6 +119,11 @@ func (ev *c01Ev) eval(e ast.Expr) c01Val {
 					}
 				}
 			}
+			if v.k == 'T' && v.s == "" {
+				if _, isSel := x.(*ast.SelectorExpr); isSel {
+					v.s = c01CellLabel(info, e, v)
+				}
+			}
 			return v
 		}
 		// indexing / selecting a composite value that is not stored in cells (e.g. a call result)
@@ -238,10 +243,18 @@ func (ev *c01Ev) composite(cl *ast.CompositeLit) c01Val {
 	t := info.TypeOf(cl)
 	b := c01MaxCells
 	z, ok := c01Zero(t, &b)
+	if !ok {
+		z, ok = c01ZeroLax(t)
+	}
 	if !ok || z.k != 'C' {
 		return c01Unknown
 	}
 	put := func(prefix string, v c01Val) {
+		if v.k == 'U' || v.k == 0 {
+			if _, tracked := z.m[prefix]; !tracked {
+				return // a field that is not tracked at all
+			}
+		}
 		for k := range z.m {
 			if k == prefix || (len(k) > len(prefix) && k[:len(prefix)] == prefix && (k[len(prefix)] == '.' || k[len(prefix)] == '[')) {
 				delete(z.m, k)
@@ -374,6 +387,10 @@ func c01Equal(st c01St, l, r c01Val) c01Tri {
 				return c01F
 			case 'N':
 				return c01T
+			}
+		case 'T':
+			if v.i == 'A' {
+				return c01F
 			}
 		case 'E':
 			switch byte(v.i) {
